@@ -25,10 +25,23 @@ func main() {
 	for v, proto := range []int{2, 4, 2, 5} {
 		hs = append(hs, c01lib.CoalCancelHist(len(hs), proto, v+1))
 	}
+	for nerr := 1; nerr <= 4; nerr++ {
+		k := len(hs)
+		hs = append(hs, c01lib.TempErrHist(k, []int{2, 4}[nerr%2], nerr, nerr%3, nerr%3, 4))
+	}
 	for i := len(hs); i < n; i++ {
 		hs = append(hs, c01lib.Gen(o.Rng, i, c01lib.Lifecycle))
 	}
 	reps := c01lib.RunAll(hs, 6, 5)
+	// gocql.TimeoutLimit = 1 and 2 (package variable: these histories run as groups of their own): silent node,
+	// sequential callers whose timeouts exceed the limit, and callers + idle heartbeat timeouts
+	for _, limit := range []int{1, 2} {
+		var g []*c01lib.Hist
+		k := len(reps)
+		g = append(g, c01lib.TimeoutLimitHist(k, 4, limit, limit+2, 0), c01lib.TimeoutLimitHist(k+1, 2, limit, limit+1, 0),
+			c01lib.TimeoutLimitHist(k+2, 3, limit, limit, 1500), c01lib.TimeoutLimitHist(k+3, 4, limit, 1, 1300*limit+300))
+		reps = append(reps, c01lib.RunAllLimit(g, 6, 5, int64(limit))...)
+	}
 	c01lib.Emit(o, reps)
 	o.Finish("From GocqlV Require Import Lib.Base C01.Corr.", "C01.Corr.case", "C01.Corr.run")
 }
